@@ -8,7 +8,7 @@ import irx_common
 import vlib
 
 ASSUME = [
-    "decoder: a line of 1..NV values (quick NV=4, thorough NV=5), each a symbolic real in [0,1], non-decreasing; classes of leading 9s 0..KMAX (quick 4, thorough 6) plus the '!1' case (values in [1-10^-(KMAX+1), 1-1e-16) are outside the bound); the encoder is my C++ transcription of mkocdfdata.py save_tab_cdf (ndigits=7) with the '{:.7g}' formatting modelled as any monotone rounding with relative error <= 0.5e-6 that keeps 0 <= d <= 9",
+    "decoder: a line of 1..NV values (quick NV=4, thorough NV=5), each a symbolic real in [0,1], non-decreasing; classes of leading 9s 0..KMAX (quick 4, thorough 6) plus the '!1' case; module decoder_deep: 2 values with all classes 0..15 (beyond class ~13 the 1e-15 slack of the real-number model is coarser than the encoding precision); the encoder is my C++ transcription of mkocdfdata.py save_tab_cdf (ndigits=7) with the '{:.7g}' formatting modelled as any monotone rounding with relative error <= 0.5e-6 that keeps 0 <= d <= 9",
     "doubles are modelled as reals: the decoder's binary constants (0.1, 0.01 ...) enter with their exact binary value, rounding of individual operations does not; assertions therefore carry an absolute slack of 1e-15 (non-decreasing / in [0,1]) - an inversion below 1e-15 would not be seen",
     "sampler: datasets with N in {2,3} energy samples (thorough: 4), symbolic e_min, e_max, Qbb with 0 <= e_min < e_max <= 10 and e_min + e_max <= Qbb (the relation of the shipped Test table; without it the sum can exceed Qbb by construction of the table cells), symbolic non-decreasing cumulative tables with class-0 tokens ending in '!1'; two symbolic deviates in (0,1] (module sampler_closed: [0,1]); monotonicity checked by a second shot with one deviate increased",
     "the dataset file is a token-level model behind the ministl stream hooks (lines, words, numbers) - character-level lexing of numbers is libstdc++'s and not part of the claim",
@@ -27,6 +27,7 @@ def run(tier, seed):
     th = tier == "thorough"
     jobs = [
         ("decoder", ["PART=1"] + (["NV=5", "KMAX=6"] if th else []), ["--K", "64"]),
+        ("decoder_deep", ["PART=1", "NV=2", "KMAX=15"], ["--K", "64"]),   # all 16 classes of leading 9s the encoder knows, two values
         ("sampler", ["PART=2", "NS=4" if th else "NS=3"], ["--K", "64"]),
         ("sampler_closed", ["PART=2", "NS=2", "CLOSED_UNIT"], ["--K", "64"]),
         ("angular", ["PART=3"], ["--K", "6"]),
